@@ -10,9 +10,17 @@ K == {1, 2}       \* the two variants
 (* value x argument kind, one syntactic form each (the forms - in_place_index / in_place_type /    *)
 (* converting, member / free swap, get by index / by type and the four reference kinds - do not     *)
 (* differ in meaning; checks/c05.py varies them when it replays the transitions on the real code). *)
+(* UNORD: the payload value that is unordered with everything (a NaN of the payload classes with a PARTIAL order, see Variant!ElemRel). *)
+(* A model-checking instance whose Vals contains it explores the relational operators (and everything else) on partially      *)
+(* ordered payloads; the plain int alternative of the set (totally ordered) never gets it.                                     *)
+UNORD == 7777
+IntAlts(tracked) == IF 0 \in tracked THEN {3} ELSE {0}     \* sets mixed / triv: alternative 0 is int; set td: alternative 3
 MCCallsOver(vals, tracked) ==
     LET KK == {<<1, 2>>, <<2, 1>>}
-        VA == {t \in [alt : Alts, val : vals, ak : {"value", "copy", "move"}] : t.alt \notin tracked => t.ak = "value"}
+        ovals == vals \ {UNORD}
+        VA == {t \in [alt : Alts, val : vals, ak : {"value", "copy", "move"}] :
+                  /\ t.alt \notin tracked => t.ak = "value"
+                  /\ t.val = UNORD => t.alt \notin IntAlts(tracked)}
     IN  {[c |-> "CtorDefault", a |-> [k |-> k]] : k \in K}
         \cup {[c |-> "CtorValue", a |-> [k |-> k, alt |-> t.alt, val |-> t.val, ak |-> t.ak, form |-> "index"]] : k \in K, t \in VA}
         \cup {[c |-> "Emplace", a |-> [k |-> k, alt |-> t.alt, val |-> t.val, ak |-> t.ak, form |-> "index"]] : k \in K, t \in VA}
@@ -31,6 +39,6 @@ MCCallsOver(vals, tracked) ==
                   h \in {"ref", "cref", "other"}, w \in {"ref", "cref"}, n \in {2, 3, 4}, wr \in {0, 1}}
         \cup {[c |-> "Hash", a |-> [k |-> k, o |-> o]] : k \in K, o \in K}
         \cup {[c |-> "Mono", a |-> [q |-> q]] : q \in {"eq", "ne", "lt", "gt", "le", "ge", "hash", "default"}}
-        \cup {[c |-> "Nest", a |-> [alt |-> j, val |-> x, mode |-> m]] : j \in Alts, x \in vals, m \in {"copy", "move", "swap", "visit"}}
-        \cup {[c |-> "Up", a |-> [t |-> t, alt |-> j, val |-> x]] : t \in {"overload", "visitret"}, j \in 0..2, x \in vals}
+        \cup {[c |-> "Nest", a |-> [alt |-> j, val |-> x, mode |-> m]] : j \in Alts, x \in ovals, m \in {"copy", "move", "swap", "visit"}}
+        \cup {[c |-> "Up", a |-> [t |-> t, alt |-> j, val |-> x]] : t \in {"overload", "visitret"}, j \in 0..2, x \in ovals}
 =============================================================================
